@@ -8259,6 +8259,18 @@ def _gl_thermal(src, out):
         fn = src.function(rel, qual)
         body = _gl_body(fn)
         st = [_gl_norm(s) for s in body]
+        if len(body) == 7 and st[2] == "def scaled_integrand(x): return self.cutoff * integrand(self.cutoff * x)" \
+                and st[3] == "integral = _complex_integral(scaled_integrand, a=0.0, b=1.0, " \
+                             "epsrel=epsrel, limit=subdiv_limit)" \
+                and st[4] == "if self.cutoff_type != 'hard': integral += _complex_integral(" \
+                             "scaled_integrand, a=1.0, b=np.inf, epsrel=epsrel, limit=subdiv_limit)":
+            # the same integrals after the substitution x = w / cutoff (Props.C12.quadrature_variable);
+            # normalise to the unsubstituted form checked below
+            body = body[:2] + body[3:]
+            st = st[:2] + ["integral = _complex_integral(integrand, a=0.0, b=self.cutoff, "
+                           "epsrel=epsrel, limit=subdiv_limit)",
+                           "if self.cutoff_type != 'hard': integral += _complex_integral(integrand, "
+                           "a=self.cutoff, b=np.inf, epsrel=epsrel, limit=subdiv_limit)"] + st[5:]
         if len(body) != 6 or st[0] != "if matsubara: tau = -1j * tau" \
                 or not isinstance(body[1], ast.If) or _gl_norm(body[1].test) != "self.temperature == 0.0" \
                 or st[2] != "integral = _complex_integral(integrand, a=0.0, b=self.cutoff, " \
@@ -9014,9 +9026,13 @@ def _bs_integrands(src, out, qual, pre):
     args = [a.arg for a in fn.args.args]
     if args != ["self", "tau", "epsrel", "subdiv_limit", "matsubara"]:
         raise Untranslatable("%s: parameters %r" % (qual, args))
-    if len(body) != 6:
-        raise Untranslatable("%s: expected 6 top-level statements, found %d" % (qual, len(body)))
-    rot, disp, first, second, post, ret = body
+    if len(body) == 6:
+        rot, disp, first, second, post, ret = body
+        scaled = None
+    elif len(body) == 7:
+        rot, disp, scaled, first, second, post, ret = body
+    else:
+        raise Untranslatable("%s: expected 6 or 7 top-level statements, found %d" % (qual, len(body)))
     # 1. if matsubara: tau = -1j * tau
     if not (isinstance(rot, ast.If) and _bs_norm(rot.test) == "matsubara" and not rot.orelse
             and len(rot.body) == 1 and isinstance(rot.body[0], ast.Assign)
@@ -9076,9 +9092,41 @@ def _bs_integrands(src, out, qual, pre):
                             "%s:%d  %s, %s branch:  %s"
                             % (BS_REL, blk[0].lineno, qual, tag, " ; ".join(_bs_norm(x) for x in blk))))
     # 3./4. integration ranges
-    want1 = "integral = _complex_integral(integrand, a=0.0, b=self.cutoff, epsrel=epsrel, limit=subdiv_limit)"
-    want2 = ("if self.cutoff_type != 'hard': integral += _complex_integral(integrand, a=self.cutoff, "
-             "b=np.inf, epsrel=epsrel, limit=subdiv_limit)")
+    # two accepted forms: `integrand` over (0, cutoff) [+ (cutoff, inf)], or the substitution
+    # x = w / cutoff: `scaled_integrand` over (0, 1) [+ (1, inf)]
+    if scaled is None:
+        fname, lo, hi = "integrand", "self.cutoff", "self.cutoff"
+        out.append("/-- %s: the closure `integrand` itself is handed to the quadrature -/\n"
+                   "def %s_scaledIntegrand {K : Type} [Mul K] (cutoff : K) (integrand : K → K) (x : K) : K :=\n"
+                   "  integrand x\n"
+                   "def %s_upper {K : Type} [IntCast K] (cutoff : K) : K := cutoff\n" % (qual, pre, pre))
+    else:
+        if not (isinstance(scaled, ast.FunctionDef) and scaled.name == "scaled_integrand"
+                and [a.arg for a in scaled.args.args] == ["x"]):
+            raise Untranslatable("%s: expected `def scaled_integrand(x)`" % qual)
+        sb = _bs_body(scaled)
+        if len(sb) != 1 or not isinstance(sb[0], ast.Return):
+            raise Untranslatable("%s: scaled_integrand is not a single return" % qual)
+
+        class _Sc(_BSVal):
+            def tr(self, e):
+                if isinstance(e, ast.Call) and _bs_norm(e.func) == "integrand" and len(e.args) == 1 \
+                        and not e.keywords:
+                    return "(integrand %s)" % self.tr(e.args[0])
+                return super().tr(e)
+        term = _Sc({"x": "x"}, {"cutoff": "cutoff"}).tr(sb[0].value)
+        if "F." in term:
+            raise Untranslatable("%s: scaled_integrand uses more than multiplication: %s" % (qual, term))
+        fname, lo, hi = "scaled_integrand", "1.0", "1.0"
+        out.append("/-- %s:%d  %s:  def scaled_integrand(x): return %s   -- this is what the quadrature "
+                   "integrates, over (0, upper) and, unless the cutoff type is 'hard', (upper, inf) -/\n"
+                   "def %s_scaledIntegrand {K : Type} [Mul K] (cutoff : K) (integrand : K → K) (x : K) : K :=\n"
+                   "  %s\n"
+                   "def %s_upper {K : Type} [IntCast K] (cutoff : K) : K := ((1 : Int) : K)\n"
+                   % (BS_REL, scaled.lineno, qual, _bs_norm(sb[0].value), pre, term, pre))
+    want1 = "integral = _complex_integral(%s, a=0.0, b=%s, epsrel=epsrel, limit=subdiv_limit)" % (fname, hi)
+    want2 = ("if self.cutoff_type != 'hard': integral += _complex_integral(%s, a=%s, "
+             "b=np.inf, epsrel=epsrel, limit=subdiv_limit)" % (fname, lo))
     if _bs_norm(first) != want1 or _bs_norm(second) != want2:
         raise Untranslatable("%s: integration ranges: %s ; %s" % (qual, _bs_norm(first), _bs_norm(second)))
     if _bs_norm(post) != "if matsubara: integral = integral.real":
@@ -9090,8 +9138,8 @@ def _bs_integrands(src, out, qual, pre):
         sign = -1
     else:
         raise Untranslatable("%s: return statement %s" % (qual, r))
-    out.append("/-- %s:%d  %s: the integrand is integrated over (0, cutoff) and, unless the cutoff type "
-               "is 'hard', also over (cutoff, inf); with `matsubara` the real part is taken; "
+    out.append("/-- %s:%d  %s: the (scaled) integrand is integrated over (0, upper) and, unless the cutoff type "
+               "is 'hard', also over (upper, inf); with `matsubara` the real part is taken; "
                "the result is returned with this sign -/\n"
                "def %s_sign : Int := %d\n"
                "def %s_tailUnlessHard : Bool := true\n"
